@@ -1,8 +1,10 @@
 (* Dispatch.v -- one entry point per property for the OCaml driver. *)
 From Coq Require Import ZArith List.
 From CiwV Require Import Sx Sched.
-From CiwV Require Acc.C01 Acc.C02 Acc.C04 Acc.C05 Acc.C06 Acc.C07 Acc.C08 Acc.C10 Acc.C12 Acc.C13 Acc.C18.
+From CiwV Require Acc.C01 Acc.C02 Acc.C03 Acc.C04 Acc.C05 Acc.C06 Acc.C07 Acc.C08 Acc.C10 Acc.C12 Acc.C13 Acc.C18.
 From CiwV Require Acc.C17.
+From CiwV Require Acc.C19.
+From CiwV Require Acc.C20.
 Import ListNotations.
 Open Scope Z_scope.
 
@@ -10,6 +12,7 @@ Definition dispatch (name : Z) (s : sx) : verdict :=
   match name with
   | 1 => C01.run s
   | 2 => C02.run s
+  | 3 => C03.run s
   | 4 => C04.run s
   | 5 => C05.run s
   | 6 => C06.run s
@@ -20,6 +23,8 @@ Definition dispatch (name : Z) (s : sx) : verdict :=
   | 13 => C13.run s
   | 17 => C17.run s
   | 18 => C18.run s
+  | 19 => C19.run s
+  | 20 => C20.run s
   | _ => BadInput (-1)
   end.
 
@@ -48,5 +53,8 @@ Definition dispatch_model (name : Z) (s : sx) : sx :=
     | _ => L []
     end
   | 170 => C17.sp_model s   (* state_probabilities over Q *)
+  | 190 => C19.model_ps s   (* PS node model: departures, starts, settled states *)
+  | 191 => C19.model_fifo s (* single-server FIFO (Lindley) model *)
+  | 200 | 201 | 202 | 203 => C20.model name s   (* Decimal: add_k, of_lit, running sums, comparison *)
   | _ => L []
   end.
